@@ -37,6 +37,7 @@ def main(ctx):
 
     vjobs = []
     graphs_by_src = {}
+    ref_graphs = {}
     n_ok_sources = 0
     for key, runs in builds.items():
         rel, flags = key
@@ -70,6 +71,7 @@ def main(ctx):
         gpath = ctx.path("graphs", "%s.json" % (rel + "".join("+" + f for f in flags)).replace("/", "_"))
         json.dump(gj, open(gpath, "w"))
         graphs_by_src[key] = (gj, gpath)
+        ref_graphs[key] = gs[0]
         n_conf = sum(len(b) for b in gj["before"])
         ev.nontrivial_add("%s:%d jobs:%d ordered conflict pairs" % (rel, gj["n"], n_conf))
         # all recorded builds of this source go into one log, separated by Reset events (one JVM start)
@@ -116,6 +118,39 @@ def main(ctx):
             raise common.ToolError("trace validation failed for %s: %s" % (label, (r.error or "timeout")))
     ev.sample({"kind": "validated trace", "label": vjobs[0][0],
                "first_events": open(vjobs[0][2]).read().splitlines()[:12]})
+
+    # (T') context-access logs against spec/Context.tla (ACLs, presence, persistence); it also counts the
+    # BE -> FE reads that a job's declared access does not cover (the unchecked read-only view)
+    import re as _re
+
+    def ctx_validate(item):
+        key, g = item
+        gj, gpath = graphs_by_src[key]
+        lp = ctx.path("ctxlog", "%s.ndjson" % (key[0] + "".join("+" + f for f in key[1])).replace("/", "_"))
+        graphs.write_ndjson(lp, graphs.context_log(g, gj))
+        r = common.run_tlc(ctx, "Context", "Context.cfg", workers=1, timeout=900, xmx="2g", deque=True,
+                           env={"GRAPH": gpath, "CTXLOG": lp}, tag="context")
+        return key, gj, r
+
+    undeclared = {}
+    n_ctx = 0
+    with concurrent.futures.ThreadPoolExecutor(6) as ex:
+        for key, gj, r in ex.map(ctx_validate, list(ref_graphs.items())):
+            if r.violated == "Consistent":
+                m = _re.findall(r'<<(\d+), "([^"]+)">>', r.out)
+                ctx.drift("Context", "context log of %s is not a behaviour of Context.tla: %s" % (key[0], sorted(set(x[1] for x in m))[:4]))
+                continue
+            if r.violated != "NotAccepted":
+                raise common.ToolError("Context.tla validation of %s failed: %s" % (key[0], r.error or r.violated or "stuck"))
+            n_ctx += 1
+            blk = r.out[r.out.find('<< "CTX"'):].split("Error")[0] if '<< "CTX"' in r.out else ""
+            for j, x in _re.findall(r"<<(\d+), (\d+)>>", blk):
+                pair = (gj["names"][int(j) - 1].split("(")[1].rstrip(")") if "(" in gj["names"][int(j) - 1] else gj["names"][int(j) - 1],
+                        gj["itemdisc"][int(x) - 1])
+                undeclared[pair] = undeclared.get(pair, 0) + 1
+    ev.traces += n_ctx
+    ev.extra["context_logs_validated"] = n_ctx
+    ev.extra["undeclared_be_to_fe_reads"] = sorted("%s reads %s" % p for p in undeclared)[:60]
 
     # (M) model checking of extracted graphs
     keys = list(graphs_by_src.keys())
